@@ -7,6 +7,7 @@ import (
 	"errors"
 	"log/slog"
 	"net"
+	"time"
 
 	"github.com/scionproto/scion/pkg/daemon"
 	"github.com/scionproto/scion/pkg/snet"
@@ -80,6 +81,12 @@ func exchangeDataQUIC(ctx context.Context, log *slog.Logger, conn *scion.QUICCon
 		return err
 	}
 	defer stream.Close()
+
+	// A peer that stops sending must not block the caller indefinitely.
+	err = stream.SetDeadline(time.Now().Add(exchangeTimeout))
+	if err != nil {
+		return err
+	}
 
 	var msg ExchangeMsg
 
